@@ -950,11 +950,25 @@ binary_pow_fns: dict[str, BinaryCallable] = {
     "^": math.pow,
 }
 
+def binary_mod_fn(
+    x: Union[int, float], y: Union[int, float]
+) -> Union[int, str]:
+    # MediaWiki: "remainder of division after truncating both operands to
+    # an integer"; the result has the sign of the dividend (PHP %), e.g.
+    # -8 mod 3 = -2, 8 mod 2.7 = 0
+    x = math.trunc(x)
+    y = math.trunc(y)
+    if y == 0:
+        return "Divide by zero"
+    ret = abs(x) % abs(y)
+    return -ret if x < 0 else ret
+
+
 binary_mul_fns: dict[str, BinaryCallable] = {
     "*": lambda x, y: x * y,
     "/": lambda x, y: "Divide by zero" if y == 0 else x / y,
     "div": lambda x, y: "Divide by zero" if y == 0 else x / y,
-    "mod": lambda x, y: "Divide by zero" if y == 0 else x % y,
+    "mod": binary_mod_fn,
     "fmod": lambda x, y: "Divide by zero" if y == 0 else math.fmod(x, y),
 }
 
